@@ -10,6 +10,7 @@ import (
 	storetypes "cosmossdk.io/store/types"
 	"cosmossdk.io/x/feegrant"
 	sdkmath "cosmossdk.io/math"
+	wasmkeeper "github.com/CosmWasm/wasmd/x/wasm/keeper"
 	codectypes "github.com/cosmos/cosmos-sdk/codec/types"
 	sdk "github.com/cosmos/cosmos-sdk/types"
 	banktypes "github.com/cosmos/cosmos-sdk/x/bank/types"
@@ -40,6 +41,7 @@ type env struct {
 	w *world.World
 	// actors that can be written into messages
 	A, B, U, G, L *actor
+	C             *actor // a CosmWasm contract deployed by the attacker (wasm extension)
 	actors        []*actor
 	byName        map[string]*actor
 	// world actors (keys) by name; G has none
@@ -112,6 +114,7 @@ func newEnv() *env {
 	e.G = mk("G", "governance", gov, "G")
 	e.L = mk("L", "licensee", w.User("L").Addr, "L")
 	e.M = mk("M", "licensee", w.User("M").Addr, "M")
+	e.C = mk("C", "contract", wasmkeeper.BuildContractAddressClassic(1, 1), "C")
 	e.actors = []*actor{e.A, e.B, e.U, e.G, e.L}
 	e.keys = map[string]*world.Actor{"A": w.User("A"), "B": b.Actor, "U": w.User("U"), "L": w.User("L"), "M": w.User("M")}
 	e.setup()
@@ -262,6 +265,9 @@ func (e *env) setup() {
 	e.compassSCID = deps[0].SmartContractID
 	// a pending licence for M (gift from U)
 	e.tx(ctx, "licence", U, &palomatypes.MsgAddLightNodeClientLicense{Metadata: world.Meta(U), ClientAddress: e.M.Acc.String(), Amount: sdk.NewInt64Coin(world.BondDenom, 1000), VestingMonths: 12})
+
+	// a contract always has an account
+	w.App.AccountKeeper.SetAccount(ctx, w.App.AccountKeeper.NewAccountWithAddress(ctx, e.C.Acc))
 
 	e.rootPlain = ctx
 	g := world.Fork(ctx)
